@@ -11,7 +11,7 @@ CHECKS = {
    text="Bounded symbolic verification: for each of the 12 gates of the built-in mechanisms z3 proves, for all reals in the stated v/dt/state/parameter ranges, that the traced update is defined, stays in [0,1], equals the closed-form exponential update built from the mechanism's own rate terms and never passes the steady state. Structure (one scalar gate at a time) is the bound; floats are modelled as reals.",
    note="exact real arithmetic; exp uninterpreted with instantiated sound axioms; rate functions taken from the code (their literature agreement is C04); synapse steady state transcribed from the class docstring", ref="6 C03"),
  "C14": dict(cat="other", tech="SMT (z3) fixed-point query update(init(v)) = init(v) on the traced IR; pandas row selection as concrete side-check",
-   text="For every built-in channel (original and renamed) z3 proves that the traced init_state is a fixed point of the traced update_states for all v in [-120,60], all dt in (0,1000] and the parameter ranges, is defined and lies in [0,1]. Module.init_states' row selection (pandas) is only a concrete side-check on two partially-inserted cells.",
+   text="For every built-in channel (original and renamed) z3 proves that the traced init_state is a fixed point of the traced update_states for all v in [-120,60], all dt in (0,1000] and the parameter ranges, is defined and lies in [0,1]. Module.init_states' row selection (pandas) is only a concrete side-check on two partially-inserted cells, under four call histories and under voltage tie patterns (compartments sharing a bit-identical voltage but not the parameters).",
    note="exact real arithmetic; exp uninterpreted; Module.init_states (pandas) not solver-decided", ref="6 C14"),
 }
 CHECKS["C17"] = dict(cat="other", tech="SMT (z3) over the traced IR of Transform.forward/inverse: bounds, monotonicity, both round trips (split by clip regime), DAG equality for routing",
@@ -33,11 +33,11 @@ CHECKS["C08"] = dict(cat="translation_validation", tech="symbolic execution of t
    text="The solver side is used as an exact dependency tracker: each recording row must be the requested symbol (column 0) and the manual-stepping trajectory at the harness's own coordinate (columns k); stimulus timing is decided on variable support, additivity/t_max/data-vs-static and clamps by DAG equality for all symbolic values. Recording plans are shuffled and include two synapse types created in interleaved order.",
    note="oracle coordinates come from the harness's own bookkeeping; spsolve as uninterpreted function with congruence; exact real arithmetic", ref="6 C08")
 CHECKS["C10"] = dict(cat="translation_validation", tech="symbolic execution of init_fn / integrate with one symbol per table entry: symbol identity per row for trainable routing, DAG equality (structural / congruence descent + z3) for set vs data_set vs make_trainable",
-   text="For every (module, view, key) of the enumerated family the parameter/state arrays built by the traced init_fn must hold the trainable's symbol on exactly the selected rows and the table's own value elsewhere (decided by symbol identity, i.e. for all values), and the three ways of setting a value must give the same simulation DAG. write_trainables is a concrete side-check.",
+   text="For every (module, view, key) of the enumerated family the parameter/state arrays built by the traced init_fn must hold the trainable's symbol on exactly the selected rows and the table's own value elsewhere (decided by symbol identity, i.e. for all values), and the three ways of setting a value must give the same simulation DAG; a geometry/capacitance value given as the only param_state / params entry must simulate like the same value given together with all other columns (clause PARTIAL: the routes differ in which keys are present). write_trainables is a concrete side-check.",
    note="exact real arithmetic; grouping oracle = rows of the view grouped by controlled_by_param; write_trainables (pandas) not solver-decided", ref="6 C10")
 CHECKS["C12"] = dict(cat="translation_validation", tech="symbolic execution of traced integrate for assembled vs constituent modules; DAG equality under row-offset renaming (AC-normalised hash-consing, congruence descent, z3); concrete side-check of tables",
    text="Each cell simulated inside a synapse-free network is compared, for all symbolic table entries, with the same cell simulated alone (symbols renamed by the row offset), for heterogeneous cells of different depth/channels and both orders; likewise one-branch cell vs branch, one-compartment branch vs compartment and sibling orders. Table preservation is a concrete side-check.",
-   note="exact real arithmetic; custom solvers refuse networks whose cells differ in per-level compartment counts (counted as refusal); jax.sparse network-vs-cell covered by C01", ref="6 C12")
+   note="exact real arithmetic; custom solvers refuse networks whose cells differ in per-level compartment counts (counted as refusal); jax.sparse: the spsolve stub applies per connected block of the sparsity pattern (the solution of a block-diagonal system is blockwise)", ref="6 C12")
 CHECKS["C15"] = dict(cat="other", tech="SMT (z3) identities on the traced IR: one-step stability function per scheme and backend, exact cubic consistency of the traced cable vector field, steady-state fixed point",
    text="A limit is not an SMT assertion; z3 proves on the traced IR the algebraic facts from which the textbook orders follow (stability functions of bwd/CN/fwd for every backend including the unit factors, exactness of the traced second difference for cubic profiles with sealed-end flux rows, steady state as fixed point). The Lax argument to the stated orders and the analytic resistance comparisons are outside the solver.",
    note="exact real arithmetic; Lax equivalence theorem trusted; stability from C02; uniform cables only", ref="6 C15")
@@ -47,7 +47,7 @@ CHECKS["C09"] = dict(cat="other", tech="SMT (z3) scheme-row identities on the tr
 CHECKS["C13"] = dict(cat="translation_validation", tech="symbolic execution of traced integrate on the re-discretised vs the directly built cell; DAG equality for all symbolic table entries and three backends; concrete side-checks of tables, SWC radius profiles and group membership",
    text="For a hand-built 4-branch cell (every branch, n in 1..4, sequences of two calls) and SWC cells (a generated spindle-soma morphology and the repository's small morphologies, initial ncomp -> new ncomp on every branch) the traced simulation after set_ncomp is compared node by node with that of the directly constructed cell. Tables, total lengths, radius profiles, connectivity and group membership are concrete side-checks against the direct construction.",
    note="set_ncomp itself is pandas/numpy code (not solver-decided); direct construction is the oracle; exact real arithmetic", ref="6 C13")
-CHECKS["C16"] = dict(cat="other", engine="E2-crosshair+E3-concolic", tech="CrossHair (z3-backed symbolic execution of the real _split_into_branches, symbolic type column per enumerated depth-first parent vector); numpy-object concolic execution of the real path-length / radius code with z3 per path (DART coverage)",
+CHECKS["C16"] = dict(cat="other", engine="E2-crosshair+E3-concolic", tech="CrossHair (z3-backed symbolic execution of the real _split_into_branches, symbolic type column per enumerated depth-first parent vector); numpy-object concolic execution of the real path-length / radius code and of the whole swc_to_jaxley (file parsing stubbed) with z3 per path (DART coverage)",
    text="Topology: for every depth-first parent vector with <=5 (thorough <=6) points CrossHair confirms over all paths, with all point types symbolic, that branches partition the points, are single-type parent/child chains with the reported type, and start exactly at branch points and type changes (both soma variants). Geometry: the real numpy code runs on symbolic coordinates and radii; z3 proves per explored path that branch lengths are the traced path lengths under the documented conventions and that compartment radii are the clipped linear interpolant. read_swc's pandas last mile is a concrete side-check.",
    note="structure (parent vectors, segment lengths for the radius part) enumerated; CrossHair verdicts other than 'Confirmed over all paths' are inconclusive; documented conventions are part of the oracle", ref="6 C16")
 CHECKS["C19"] = dict(cat="translation_validation", tech="enumerated editing histories; symbolic execution of traced integrate on the edited module vs a module rebuilt from its public tables, and history vs history+op+inverse; DAG equality; table predicates as concrete side-checks",
